@@ -18,21 +18,24 @@ Theorem inventory_pervasive_refuted_pre :
     exec_inventory true f x <> inventory_def (sem f) x.
 Proof. exists (FPerv PNeg), (Arr TNum [2%nat] [ENum 1; ENum 2]). repeat split; vm_compute; congruence. Qed.
 
-(** generic reduce under rows, on rows that are scalars: a spurious length-1 axis *)
-Theorem reduce_below_rank_refuted :
+(** before commit 68a793c: generic reduce under rows, on rows that are scalars, left a spurious
+    length-1 axis (`≡≡/↥ "ab"` had shape 2x1) *)
+Theorem reduce_below_rank_refuted_pre :
   exists x, wf x /\ ash x = [2%nat] /\
-    exec_mfn (rowsk 2 (FReduce PMax)) x <> sem (rowsk 2 (FReduce PMax)) x.
+    k_reduce_gen true (red2 PMax) (red_ident PMax) 2 x <> sem (rowsk 2 (FReduce PMax)) x.
 Proof. exists (Arr TChar [2%nat] [EChar 97; EChar 98]). repeat split; vm_compute; congruence. Qed.
 
-(** composed kernels at equal depth, rows of rank below the nesting depth *)
-Theorem compose_below_rank_refuted :
-  exists f x, wf x /\ ash x = [2%nat] /\ fast_fn f <> None /\
-    exec_mfn (rowsk 2 f) x <> sem (rowsk 2 f) x.
-Proof. exists (FSeq FFix FFirst), (Arr TNum [2%nat] [ENum 1; ENum 2]). repeat split; vm_compute; congruence. Qed.
+(** before commit 68a793c: composed kernels ran at the nesting depth even when the rows' rank
+    was below it (`≡≡(⊢¤) [1 2]` had shape 2x1): rows1 called the kernels at depth d + 1 uncapped *)
+Theorem compose_below_rank_refuted_pre :
+  exists f ks x, wf x /\ ash x = [2%nat] /\ fast_fn f = Some (ks, 0) /\
+    run_kernels ks 2 x <> sem (rowsk 2 f) x.
+Proof. exists (FSeq FFix FFirst), [KFix; KFirst], (Arr TNum [2%nat] [ENum 1; ENum 2]). repeat split; vm_compute; congruence. Qed.
 
-(** first at depth >= 1 fails on empty rows even when there is no row to take the first of *)
-Theorem first_depth_empty_refuted :
-  exists x, wf x /\ exec_mfn (rowsk 1 FFirst) x = Err /\
+(** before commit 09b3e8b: first at depth >= 1 failed on empty rows even when there was no row to
+    take the first of (`≡⊢ ↯0_0 0`) *)
+Theorem first_depth_empty_refuted_pre :
+  exists x, wf x /\ k_first true 1 x = Err /\
     exists y, sem (rowsk 1 FFirst) x = Ok y /\ ash y = [0%nat].
 Proof. exists (Arr TNum [0%nat; 0%nat] []). repeat split; try (vm_compute; reflexivity). eexists; split; vm_compute; reflexivity. Qed.
 
@@ -95,16 +98,18 @@ Proof.
 Qed.
 
 (** over an empty mapped axis: the shape-only kernels succeed and keep the mapped lengths *)
-Theorem kernel_empty_lead : forall a, In a [KId; KRev; KDeshape; KFix] ->
+Theorem kernel_empty_lead : forall a, In a [KId; KRev; KDeshape; KFix; KFirst; KLast] ->
   forall d x i, wf x -> d <= length (ash x) -> first_zero (firstn d (ash x)) = Some i ->
   exists y, run_katom a d x = Ok y /\ firstn (S i) (ash y) = firstn (S i) (ash x).
 Proof.
   intros a Ha d x i W Hd Hz. cbn in Ha.
-  destruct Ha as [<-|[<-|[<-|[<-|[]]]]]; cbn [run_katom].
+  destruct Ha as [<-|[<-|[<-|[<-|[<-|[<-|[]]]]]]]; cbn [run_katom].
   - rewrite (id_bk d x W). apply run_bk_empty; auto.
   - rewrite k_reverse_bk by auto. apply run_bk_empty; auto.
   - rewrite k_deshape_bk by auto. apply run_bk_empty; auto.
   - rewrite k_fix_bk by auto. apply run_bk_empty; auto.
+  - rewrite k_first_bk by auto. apply run_bk_empty; auto.
+  - rewrite k_last_bk by auto. apply run_bk_empty; auto.
 Qed.
 
 (** `≡` increments the depth: fast-path selection for rows^k of a proved atom, and what rows1 runs *)
@@ -112,7 +117,39 @@ Theorem rows_increments_depth : forall k f ks d, fast_fn f = Some (ks, d) ->
   fast_fn (rowsk k f) = Some (ks, k + d).
 Proof. induction k; intros; cbn [rowsk fast_fn Nat.add]; auto. rewrite (IHk f ks d); auto. Qed.
 
-(** end to end for a single catalogue atom under k rows: interpreter = definition *)
+(** nesting rows deeper than the rank is nesting down to the rank (rows of a scalar are the
+    scalar itself): the law behind the depth limit of commit 68a793c *)
+Theorem rows_iter_cap F : forall d x, wf x ->
+  rows_iter d F x = rows_iter (Nat.min d (length (ash x))) F x.
+Proof.
+  induction d; intros x W; [reflexivity|].
+  destruct (ash x) as [|n s] eqn:E.
+  - cbn [length]. rewrite Nat.min_0_r. cbn [rows_iter]. unfold rows_def. rewrite E.
+    rewrite IHd by auto. rewrite E. cbn [length]. rewrite Nat.min_0_r. reflexivity.
+  - cbn [length]. replace (Nat.min (S d) (S (length s))) with (S (Nat.min d (length s))) by lia.
+    cbn [rows_iter]. apply rows_def_ext; [|congruence].
+    intros r Hr. pose proof (rows_wf x n s W E) as Fa. rewrite Forall_forall in Fa.
+    destruct (Fa r Hr) as (Wr & Er & _). rewrite IHd by auto. rewrite Er. reflexivity.
+Qed.
+
+Lemma sem_rowsk f : forall j y, sem (rowsk j f) y = rows_iter j (sem f) y.
+Proof.
+  induction j; intros y; cbn [rowsk rows_iter sem]; auto.
+  unfold rows_def. destruct (ash y); auto. f_equal. erewrite mapM_ext_in; [reflexivity|]. intros; apply IHj.
+Qed.
+
+Theorem sem_rows_cap : forall f k x, wf x ->
+  sem (rowsk k f) x = sem (rowsk (Nat.min k (length (ash x))) f) x.
+Proof. intros. rewrite !sem_rowsk. apply rows_iter_cap; auto. Qed.
+
+(** what the interpreter runs for rows^(k+1) of an operand with a fast path: its kernels at the
+    nesting depth, limited to the rank *)
+Theorem exec_rows_cap : forall f ks d0 k x, fast_fn f = Some (ks, d0) ->
+  exec_mfn (rowsk (S k) f) x = run_kernels ks (Nat.min (S (k + d0)) (length (ash x))) x.
+Proof. intros f ks d0 k x Hf. cbn [rowsk exec_mfn]. rewrite (rows_increments_depth k f ks d0 Hf). reflexivity. Qed.
+
+(** end to end for a single catalogue atom under k rows, on arrays of ANY rank (also below the
+    nesting depth): interpreter = definition *)
 Theorem exec_rows_atom_eq : forall a f, proved_atom a = Some f -> atom_kernel false f = Some a ->
   forall k x, wf x -> lead_pos (S k) (ash x) ->
   exec_mfn (rowsk (S k) f) x = sem (rowsk (S k) f) x.
@@ -120,14 +157,20 @@ Proof.
   intros a f Ha Hk k x W L.
   assert (Hf : fast_fn f = Some ([a], 0)).
   { destruct f; cbn in Hk |- *; try discriminate; inversion Hk; subst; try reflexivity; destruct a; discriminate. }
-  cbn [rowsk exec_mfn]. rewrite (rows_increments_depth k f [a] 0 Hf). rewrite Nat.add_0_r.
-  cbn [run_kernels]. rewrite (kernel_eq_generic a f Ha (S k) x W L).
-  assert (Hs : forall j y, sem (rowsk j f) y = rows_iter j (sem f) y).
-  { induction j; intros y; cbn [rowsk rows_iter sem]; auto.
-    unfold rows_def. destruct (ash y); auto. f_equal. erewrite mapM_ext_in; [reflexivity|]. intros; apply IHj. }
-  change (sem (FRows (rowsk k f)) x) with (sem (rowsk (S k) f) x). rewrite Hs.
-  destruct (rows_iter (S k) (sem f) x); reflexivity.
+  rewrite (exec_rows_cap f [a] 0 k x Hf). rewrite Nat.add_0_r.
+  cbn [run_kernels]. change (Nat.min (S k) (length (ash x))) with (dmin (S k) x).
+  rewrite (kernel_eq_generic a f Ha _ x W (lead_pos_dmin (S k) x L)).
+  rewrite sem_rowsk, (rows_iter_cap (sem f) (S k) x W). unfold dmin.
+  destruct (rows_iter (Nat.min (S k) (length (ash x))) (sem f) x); reflexivity.
 Qed.
+
+(** the former witnesses of the below-rank defects now agree with the definition *)
+Example below_rank_witnesses_agree :
+  exec_mfn (rowsk 2 (FReduce PMax)) (Arr TChar [2%nat] [EChar 97; EChar 98]) = sem (rowsk 2 (FReduce PMax)) (Arr TChar [2%nat] [EChar 97; EChar 98]) /\
+  exec_mfn (rowsk 2 (FSeq FFix FFirst)) (Arr TNum [2%nat] [ENum 1; ENum 2]) = sem (rowsk 2 (FSeq FFix FFirst)) (Arr TNum [2%nat] [ENum 1; ENum 2]) /\
+  exec_mfn (rowsk 3 (FSeq FFix FDeshape)) (Arr TNum [1%nat] [ENum 3]) = sem (rowsk 3 (FSeq FFix FDeshape)) (Arr TNum [1%nat] [ENum 3]) /\
+  exec_mfn (rowsk 1 FFirst) (Arr TNum [0%nat; 0%nat] []) = Ok (Arr TNum [0%nat] []).
+Proof. repeat split; vm_compute; reflexivity. Qed.
 
 (** rows of a composition = composition of rows, when the intermediate results assemble and the
     argument has the mapped axis (for scalars see compose_below_rank_refuted) *)
